@@ -440,13 +440,44 @@ def a_canon_model(c, ans):
 A_KNOWN = GLOBAL_TAGS + USER_TAGS         # registered tags: the -t / -T clauses speak about these
 
 
+def dict_lists(d):
+    out = []
+    for _, v in d:
+        out += [vv for _, vv in v] if v and isinstance(v[0], list) else [v]
+    return out
+
+
+def shaped(lst):
+    """The shape under which the placement clauses are claimed for a dictionary list (ShapedBaseW, read off the list
+    itself): no version-type entry stands in front of the last `commandLine` / `type:*` entry."""
+    last = max([i for i, e in enumerate(lst) if e == "commandLine" or re.match(r"^type:.+", e)], default=-1)
+    return not any(e in VT for e in lst[:last + 1])
+
+
 def a_oracle(c, out):
-    """Positions of the -t / -T tags in the VRO the implementation produced (default dictionary only: that is what
-    the property quantifies over)."""
-    if c["dict"] != "default" or c["userVRO"] or out.get("out") != "ok":
+    """Positions of the -t / -T tags in the VRO the implementation produced: for the default dictionary (what the
+    property quantifies over) and for every other dictionary all of whose lists have the shape the general theorem asks."""
+    if c["userVRO"] or out.get("out") != "ok":
+        return
+    lists = dict_lists(DICTS[c["dict"]])
+    if c["dict"] != "default" and not all(shaped(l) for l in lists):
         return
     vro = out["vro"]
     vts = [i for i, e in enumerate(vro) if e in VT]
+    general = c["dict"] != "default"
+    if general:
+        # the clauses of C03_pretag_before_version_any_dict / C03_posttag_after_version_any_dict
+        for t in c["tags"]:
+            if t in A_KNOWN and (t not in vro or (vts and vro.index(t) > vts[0])):
+                yield ("pretag_before_version", "-t %s is not in front of the version entries of %s (dictionary %s)" % (t, vro, c["dict"]))
+        for t in c["postTags"]:
+            if t not in A_KNOWN or t in c["tags"] or not all(any(e in VT for e in l) for l in lists):
+                continue
+            if any(t in l and any(e in VT for e in l[l.index(t) + 1:]) for l in lists):
+                continue        # the dictionary itself lists the tag in front of a version entry
+            if t not in vro or (vts and vro.index(t) < vts[-1]):
+                yield ("posttag_after_version", "-T %s is not behind the version entries of %s (dictionary %s)" % (t, vro, c["dict"]))
+        return
     for t in c["tags"]:
         if t not in A_KNOWN:
             continue
@@ -1430,7 +1461,17 @@ def gen_f(rng):
             toks.append(["t", rng.choice(F_TVALS)] if k < 0.45 else ["T", rng.choice(F_TVALS[:5])] if k < 0.8 else ["c"])
     return {"toks": toks, "version": rng.random() < 0.5, "exact": rng.random() < 0.3,
             "dbz": rng.choice([None, None, None, "stack0"]), "defaults": rng.choice(F_DEFAULTS),
-            "dict": rng.choice(["default"] * 5 + ["hooks-else", "tagkey", "dbz", "early-version"])}
+            "dict": rng.choice(["default"] * 5 + ["hooks-else", "tagkey", "dbz", "early-version", "warns", "noversion"])}
+
+
+def all_f():
+    """Thorough tier: every command line of at most three options over {-t beta, -t mine, -T stable, -c, -t None}, with and
+    without a version, -e, and three default-tag configurations, on the default dictionary."""
+    toks = [["t", "beta"], ["t", "mine"], ["T", "stable"], ["c"], ["t", "None"]]
+    seqs = [[]] + [[a] for a in toks] + [[a, b] for a in toks for b in toks] + [[a, b, c] for a in toks for b in toks for c in toks]
+    return [{"toks": sq, "version": v, "exact": e, "dbz": None, "defaults": d, "dict": "default"}
+            for sq in seqs for v in (False, True) for e in (False, True)
+            for d in (None, {"pre": ["beta"], "post": []}, {"pre": ["t"], "post": ["stable"]})]
 
 
 def f_args(c):
@@ -1542,12 +1583,12 @@ def eval_f(ctx, cases):
             ctx.fail("vro_cmd_reports_setup_vro", key, pair, mo2,
                      note="`eups vro %s` prints %s, `setup` with the same arguments resolves with %s" %
                           (" ".join(f_args(c)), a["vro"], b["vro"]))
-        if b["out"] == "ok" and c["dict"] == "default":
+        if b["out"] == "ok":
             tags, post = f_effective(c)
-            sub = {"dict": "default", "userVRO": False, "keep": False, "tags": tags, "postTags": post}
+            sub = {"dict": c["dict"], "userVRO": False, "keep": False, "tags": tags, "postTags": post}
             for clause, detail in a_oracle(sub, b):
                 ctx.fail(clause, key, pair, mo2, note="setup: " + detail)
-            if "type:exact" not in b["vro"] and "bogus" not in tags:
+            if c["dict"] == "default" and "type:exact" not in b["vro"] and "bogus" not in tags:
                 ctx.fail("default_vro_entries_kept", key, pair, mo2, note="type:exact is missing from %s" % b["vro"])
 
 
@@ -2128,6 +2169,13 @@ def run(ctx):
     if big:
         if ctx.tier == "thorough":
             exhaustive_b(ctx)
+            fa = all_f()
+            ctx.hist("F:exhaustive-command-lines", len(fa))
+            for k in range(0, len(fa), 300):
+                if ctx.out_of_time():
+                    ctx.note("exhaustive command lines cut short by the time budget at %d of %d" % (k, len(fa)))
+                    break
+                eval_f(ctx, fa[k:k + 300])
         left = {k: THOROUGH[k] - done[k] for k in QUICK}
         while any(v > 0 for v in left.values()) and not ctx.out_of_time():
             for k in QUICK:
